@@ -258,7 +258,7 @@ class Tracker:
                 self.bal[l["owner"] - 1][l["denom"] - 1] += amt
 
 
-def gen_case(r, tier, nops=None):
+def gen_case(r, tier, nops=None, all_full=False):
     durs = sorted(r.choice(DUR_POOLS))
     unit = r.choice(durs)
     # one history in eight locks under many distinct durations, so that the accumulation sum-trees (fan-out 10) grow inner nodes
@@ -308,6 +308,10 @@ def gen_case(r, tier, nops=None):
             l = tr.locks.get(i_)
             a = l["owner"] if l and not malformed else r.range(1, 4)
             bigger = [d for d in lockdurs if l and d > l["dur"]]
+            # prefer a duration under which the same owner already holds the same denomination: two locks then share one key
+            twin = [x["dur"] for x in tr.locks.values() if l and x is not l and x["owner"] == l["owner"] and x["denom"] == l["denom"] and x["end"] == 0 and x["dur"] > l["dur"]]
+            if twin and r.chance(1, 2):
+                bigger = twin
             d = r.choice(bigger) if bigger and not malformed else r.choice(durs + [0, (l["dur"] if l else 1), (l["dur"] + 1 if l else 2)])
             o = {"k": "extend", "o": a, "id": i_, "dur": d}
             if l:
@@ -363,16 +367,17 @@ def gen_case(r, tier, nops=None):
             else:
                 foc = (r.range(1, 3), r.range(1, 3), r.choice(durs), tr.now + r.choice(durs))
         tr.apply(o)
-        full = (i == nops - 1) or r.chance(1, pfull)
+        full = all_full or (i == nops - 1) or r.chance(1, pfull)
         now = tr.now
         if full:
-            qd = [0]
+            # durations: 0, a negative one, every universe duration and a neighbour; times: one long past, now, now -+ 1, recent end times -+ 1
+            qd = [0, r.choice([-1, -10**9])]
             for d in durs + ([r.choice(lockdurs), r.choice(lockdurs)] if len(lockdurs) > len(durs) else []):
                 qd += [d, d + r.choice([-1, 1])]
-            qt = [now, now + r.choice([-1, 1])]
+            qt = [1, now, now + r.choice([-1, 1])]
             for e in sorted(set(tr.ends[-3:] + [l["end"] for l in tr.locks.values() if l["end"]]))[-4:]:
                 qt.append(e + r.choice([-1, 0, 0, 1]))
-            q = {"a": [1, 2, 3] + ([4] if r.chance(1, 4) else []), "n": [1, 2, 3], "d": sorted(set(max(0, d) for d in qd)), "t": sorted(set(max(1, t) for t in qt))}
+            q = {"a": [1, 2, 3] + ([4] if r.chance(1, 4) else []), "n": [1, 2, 3], "d": sorted(set(qd)), "t": sorted(set(max(1, t) for t in qt))}
         else:
             a, n, d, e = foc
             qd = [max(0, d), max(0, d + r.choice([-1, 1]))]
@@ -511,6 +516,8 @@ def check_state(c, ob):
             exp = [sum(l["amt"] for l in m if l["denom"] == k) for k in range(1, nd + 1)] + [0]
         elif name == "HasLock":
             exp = [1 if m else 0]
+        elif d < 0:
+            continue      # GetLockedDenom with a negative duration: not a duration (the code casts it to uint64; pinned by the model only)
         else:
             exp = [sum(l["amt"] for l in m)]
         if list(res) != exp:
@@ -657,20 +664,16 @@ def run_impl(cases, nshards=None):
 
 
 def coq_keep(c, tier):
-    """which operations keep their query sweep in the Coq comparison (the oracle sees every sweep): all light sweeps,
-    and of the full sweeps the last one plus every second other one"""
+    """which operations keep their query sweep in the Coq comparison (the oracle sees every sweep): all light (focus) sweeps and
+    the full sweep after the last operation; for the other full sweeps the digest of the state part is compared"""
     keep = []
-    nfull = 0
     n = len(c["ops"])
     for i, o in enumerate(c["ops"]):
         q = o.get("q")
         if q is None:
             keep.append(False)
-            continue
-        full = len(q["a"]) >= 3
-        if full and i != n - 1:
-            nfull += 1
-            keep.append(nfull % 2 == 1)
+        elif len(q["a"]) >= 3 and i != n - 1:
+            keep.append(False)
         else:
             keep.append(True)
     return keep
@@ -735,7 +738,7 @@ def run_cases(cases, model_ok, out, tag, tier="quick", per_file=8):
 def correspond(tier, seed, model_ok):
     out = Outcome()
     r = Rng(seed)
-    n = 320 if tier == "quick" else 4000
+    n = 300 if tier == "quick" else 4000
     cases = [gen_case(r.fork(i), tier) for i in range(n)]
     corpus = common.load_corpus(PROP)
     run_cases(corpus + cases, model_ok, out, "q", tier)
@@ -743,8 +746,8 @@ def correspond(tier, seed, model_ok):
     # model's scope (see ASSUMPTIONS), so implementation + oracle only
     rp = Rng(seed + 31337)
     pcases = []
-    for i in range(10 if tier == "quick" else 200):
-        c = gen_case(rp.fork(i), tier)
+    for i in range(8 if tier == "quick" else 160):
+        c = gen_case(rp.fork(i), tier, nops=rp.range(20, 50), all_full=True)
         c["denoms"] = PREFIX_DENOMS
         pcases.append(c)
     run_cases(pcases, False, out, "p", tier)
@@ -766,7 +769,7 @@ def search(tier, seed, out):
     o2 = Outcome()
     r = Rng(seed + 7919)
     cases = [m["case"] for m in out.mismatches[:40] if m.get("case")]
-    cases += [gen_case(r.fork(i), "thorough") for i in range(1500)]
+    cases += [gen_case(r.fork(i), "thorough") for i in range(600)]
     run_cases(cases, False, o2, "s", tier)
     return o2.oracle_violations[0] if o2.oracle_violations else None
 
